@@ -21,7 +21,7 @@ ASSUMPTIONS = ["unwinding runs destructors (Rust's guarantee): a panicking handl
 
 
 def gen(tier, rng):
-    for x in plbase.gen_cases(tier, rng, kinds=["drop", "panic", "respond", "raw", "drop", "rawx", "chunked", "rawempty", "rawflush", "rawpanic"]):
+    for x in plbase.gen_cases(tier, rng, kinds=["drop", "panic", "respond", "raw", "drop", "rawx", "chunked", "rawempty", "rawflush", "rawpanic", "resperr", "resperr"]):
         yield x
     # upgrade: the 101 answer, then the raw stream
     from convgen import AReq, cv_line, action_str
@@ -100,14 +100,16 @@ def gen_pending_head(tier, rng):
     """answered requests followed by the head of a request whose small body (Content-Length <= 1024, no Expect) has not
     arrived yet: the library waits for that body before delivering the request, and meanwhile the answers to the earlier
     requests must have reached the client (they must not wait for a later response to flush them out)"""
-    from convgen import cv_line, action_str
+    from convgen import cv_line, action_str, respond_str, body_bytes
     from common import hx
-    for i in range(10 if tier == "quick" else 100):
+    for i in range(16 if tier == "quick" else 160):
         stream = b""
         acts, wu, ws = [], [], []
         for k in range(1 + rng.below(3)):
             stream += ("GET /ph%d.%d HTTP/1.1\r\nHost: h\r\n\r\n" % (i, k)).encode()
-            fin, st = rng.choice([("R200:6f6b:1", "200"), ("D", "500"), ("W" + hx(b"HTTP/1.1 299 Raw\r\nContent-Length: 0\r\n\r\n"), "299")])
+            fin, st = rng.choice([("R200:6f6b:1", "200"), ("D", "500"), ("W" + hx(b"HTTP/1.1 299 Raw\r\nContent-Length: 0\r\n\r\n"), "299"),
+                                  # an undeclared length (chunked): the END of the message must reach the client too
+                                  ("R200:6f6b:0", "200"), (respond_str(200, body_bytes("u%d" % k, 3000), False), "200")])
             acts.append(action_str([], fin))
             wu.append(hx("/ph%d.%d" % (i, k)))
             ws.append(st)
